@@ -7,9 +7,10 @@ C08 — model of the two column-type parsers that read type descriptions sent by
   The Rust `depth` argument is `129 - fuel`: `depth > 128` ⇔ `fuel = 0`.  Structural recursion on `fuel`
   (nesting) and on the element count (`loopN`): this is the termination proof.
 * `customParse` ← `CustomTypeParser::parse` (`custom_type_parser.rs`, after 412bc6c (iterator fused after its first
-  error), c6419cc (depth limit in `do_parse`) and 3ffdc84 (`get_n_type_parameters` collects the parameters once)).  The parser state is the remaining input (bytes; ASCII only — a
-  string containing a byte ≥ 0x80 is reported as `unmodelled`, because `char::is_alphanumeric/is_whitespace` are
-  Unicode tables the model does not carry).
+  error), c6419cc (depth limit in `do_parse`), 3ffdc84 (parameters collected once) and 2a278cb (no zero dimension)).
+  The parser state is the list of the remaining Unicode scalars; the class of the non-ASCII ones
+  (`char::is_alphanumeric` / `is_whitespace`) is a parameter of the model (`St.uni`).  The one partial operation of
+  the parser, `from_utf8(chunk).unwrap()` in `from_hex`, is modelled with its panic (`CtErr.panic`).
 -/
 namespace ScyllaVerif.C08
 
